@@ -781,7 +781,11 @@ def rloopWith (run : St → Res) (runElse : Option (St → Res)) (ls : RLoopSpec
   | [] => ok s
   | name :: sub =>
     match getVar s.c.vars name with
-    | none => ok s
+    | none =>
+      -- the variable is not set: no iteration, the else branch runs (repair); `ctx.Err` is not touched before it
+      (match runElse with
+       | some re => re s
+       | none => ok s)
     | some vv =>
       let r := rloopLoop run ls (loopItems vv sub) 0 s
       -- `ctx.Err = v.ins.Loop(...)`: the inspector's result (nil) replaces whatever was there;
